@@ -30,8 +30,13 @@ void messageq_init(messageq_t *mq, void *basep, size_t base_len, size_t msg_len)
 
 void *messageq_claim(messageq_t *mq)
 {
-	/* get permission to allocate a message */
-	int num_free = atomic_fetch_sub(&mq->num_free, 1);
+	/* get permission to allocate a message. num_free is an unsigned char
+	 * that briefly drops below zero (wraps to 255, 254...) whilst claims
+	 * on a full queue are being refused; read it as a signed quantity so
+	 * that a concurrent or nested claim does not mistake the wrapped
+	 * value for 255 free buffers.
+	 */
+	int num_free = (signed char) atomic_fetch_sub(&mq->num_free, 1);
 	if (num_free <= 0) {
 		atomic_fetch_add(&mq->num_free, 1);
 		return NULL;
